@@ -1,7 +1,8 @@
 """C11 — static sender traits are sound (blocking / sends_done), compared with the real headers.
 Theorems: coq/Properties_C11_calc.v; tie: compile-time sender_traits<S> and run-time blocking(s) of every
 generated expression against the Gallina mirrors (tools/k2traits.py), behaviour monitors in thorough tier."""
-import k2, k2traits, k2v2
+import re
+import k2, k2traits, k2v2, vlib
 LEVEL = "proof"
 def run(chk, replay=None):
     chk.cov["trusted_base"] = [
@@ -11,6 +12,45 @@ def run(chk, replay=None):
         "NOT modelled: execution contexts (via/on/affinity soundness, task scheduler affinity) - affinity is mirrored and compared only"]
     chk.cov["rule"] = "generated expressions: the three compile-time traits and run-time blocking() compared with the mirrors; non-trivial = distinct expression"
     chk.prove()
+    probe_traits(chk)
     k2traits.run_traits(chk, 4 if chk.tier == "quick" else 20, 15, monitor=(chk.tier != "quick"))
     k2.standard_k2(chk)
     k2v2.standard_k2v2(chk)   # second-generation model Calc2 (lifetimes, contexts, more algorithms): tie (theorems: Properties_*_calc2.v)
+
+
+def probe_traits(chk):
+    """hand-written expressions outside the Calc grammar (dematerialize, retry_when, via/on, ...): the property's static-trait
+    clauses evaluated directly on one real run each (harness/k3_traits_probe.cpp)"""
+    exe, err = vlib.build_driver("k3_traits_probe", "plain17")
+    if err:
+        p = chk.replay_file("probe_build", {"kind": "build-failure", "error": err[-3000:]})
+        chk.violation("traits_probe/build", p, no_input=True, text="k3_traits_probe does not compile against /repo")
+        return
+    rc, out = vlib.sh([exe], timeout=120)
+    n = 0
+    for l in out.splitlines():
+        m = re.match(r"(\S+) blocking=(\d) sends_done=(\d) rt_blocking=(\d) outcome=(.) inline=(\d)", l)
+        if not m:
+            continue
+        n += 1
+        name, bl, sd, rt, oc, inl = m.group(1), int(m.group(2)), int(m.group(3)), int(m.group(4)), m.group(5), int(m.group(6))
+        chk.count("probe:" + name, oc != "v")
+        why = None
+        if sd == 0 and oc == "d":
+            why = "declares sends_done=false but completed with done"
+        elif bl in (0, 1) and inl != 1:
+            why = "declares blocking always(_inline) but did not complete inside start()"
+        elif bl == 3 and inl == 1:
+            why = "declares blocking never but completed inside start()"
+        elif rt != bl and bl != 2:
+            why = "run-time blocking() %d differs from the static %d" % (rt, bl)
+        if why:
+            p = chk.replay_file("probe_" + name, {"kind": "trait-probe", "probe": name, "line": l, "why": why,
+                                                  "replay": exe + " | grep " + name})
+            chk.violation("traits_probe/%s" % name, p, text="%s: %s (%s)" % (name, why, l))
+        else:
+            chk.cov["traces_validated_against_impl"] += 1
+    if rc != 0 or n < 20:
+        p = chk.replay_file("probe_run", {"kind": "probe-crash", "rc": rc, "out": out[-2000:]})
+        chk.violation("traits_probe/crash", p, text="trait probe program failed rc=%d after %d probes" % (rc, n))
+    chk.cov["trait_probes"] = n
